@@ -20,7 +20,7 @@ RULE = (
     "history has at least one hit and one miss after the first call."
 )
 ASSUMPTIONS = [
-    "calls of one history are sequential (each completes before the next), except the explicit two-keys-in-one-yield step on the unbounded per-instance cache",
+    "calls of one history are sequential (each completes before the next), except the explicit steps that put several calls in flight at once (two keys on the per-instance cache; 2-5 calls incl. repeated keys on the LRU caches, where the model stores results in the observed completion order)",
     "the scripted clock never reports 0 and never sits exactly on a ttl boundary (the statement does not fix the boundary side)",
 ]
 UNIT_TIMEOUT = {"quick": 200, "thorough": 2400}
@@ -295,6 +295,66 @@ def run_history(kind, hist, seed):
                                 pmodel[iname][nk] = out[1]
                 if viol:
                     return
+            elif op[0] == "gather":
+                # several calls (same and different keys) in flight at once on a bounded LRU cache: everything that
+                # misses runs its body; results are stored in completion order, hits refresh recency when they run
+                _, iname, calls = op
+                env.block = True
+                env.fail_next = False
+                m_ = models.setdefault(iname, LRU(hist["maxsize"])) if shared_deco else model
+                tasks = []
+                order = []
+                plan_ = []
+                nexec = len(env.execs)
+                if K is not None and iname not in insts:
+                    insts[iname] = K()
+                for ci, (key, sp) in enumerate(calls):
+                    key = tuple(key)
+                    args, kw = spell(key, sp)
+                    target = f[iname] if shared_deco else (insts[iname].m if K is not None else f)
+                    nk = norm_key(kind, iname, key, args, kw)
+                    plan_.append((nk, nk in m_.d, m_.d.get(nk), key))
+                    t = target.asynq(*args, **kw)
+                    t.on_computed.subscribe(lambda _t, ci=ci: order.append(ci))
+                    tasks.append(t)
+                target = None
+                vals = yield tasks
+                stats["gathers"] = stats.get("gathers", 0) + 1
+                nmiss = sum(1 for p_ in plan_ if not p_[1])
+                if len(set(p_[0] for p_ in plan_ if not p_[1])) < nmiss:
+                    stats["gathers_with_overlapping_misses_of_one_key"] = stats.get("gathers_with_overlapping_misses_of_one_key", 0) + 1
+                ran = len(env.execs) - nexec
+                if ran != nmiss:
+                    viol.append(("gathered-calls-executions", {"op": op, "executions": ran, "misses": nmiss}))
+                    return
+                if sorted(order) != list(range(len(calls))):
+                    viol.append(("gathered-call-not-completed-once", {"op": op, "completions": order}))
+                    return
+                # the bodies' tokens, in execution order, belong to the missing calls in issue order
+                toks = [t_ for (_n, _a, t_) in env.execs[nexec:]]
+                fresh = {}
+                mi = 0
+                for ci, p_ in enumerate(plan_):
+                    if not p_[1]:
+                        nm_, nargs, tok = env.execs[nexec + mi]
+                        if nargs != p_[3]:
+                            viol.append(("body-received-other-arguments", {"op": op, "body_got": nargs}))
+                            return
+                        fresh[ci] = tokval(nm_, tok)
+                        mi += 1
+                for ci, p_ in enumerate(plan_):
+                    want = p_[2] if p_[1] else fresh[ci]
+                    if vals[ci] != want:
+                        viol.append(("hit-returned-wrong-value" if p_[1] else "miss-returned-wrong-value", {"op": op, "call": ci, "expected": want, "observed": vals[ci]}))
+                        return
+                for ci in order:
+                    p_ = plan_[ci]
+                    if p_[1]:
+                        m_.get(p_[0])
+                    else:
+                        if len(m_.d) >= m_.cap and p_[0] not in m_.d:
+                            stats["evictions"] += 1
+                        m_.put(p_[0], fresh[ci])
             elif op[0] == "pair":
                 # two different keys of the unbounded per-instance cache awaited in one yield
                 _, iname, k1, k2, sp1, sp2 = op
@@ -451,6 +511,11 @@ def make_history(rnd, kind):
         elif kind == "per_instance" and r < 0.17 and len(keys) >= 2:
             k1, k2 = rnd.sample(keys, 2)
             ops.append(["pair", iname, list(k1), list(k2), rnd.randrange(6), rnd.randrange(6)])
+        elif kind.startswith("lru") and r < 0.12:
+            calls = [[list(rnd.choice(keys)), rnd.randrange(6)] for _ in range(rnd.randint(2, 4))]
+            if rnd.random() < 0.5:
+                calls.append([list(calls[0][0]), rnd.randrange(6)])  # the first key once more, last
+            ops.append(["gather", iname, calls])
         else:
             ops.append(["call", iname, list(rnd.choice(keys)), rnd.randrange(6), rnd.random() < 0.3, rnd.random() < 0.12])
     return {"maxsize": rnd.randint(1, 4), "ops": ops}
@@ -504,7 +569,7 @@ def run_unit(unit, progress):
 
 def reach(c, tier):
     out = []
-    for k in ["histories_" + k for k in KINDS] + ["hits", "misses", "evictions", "raises", "spelling_pairs", "gc_checks", "parallel", "recomputes"]:
+    for k in ["histories_" + k for k in KINDS] + ["hits", "misses", "evictions", "raises", "spelling_pairs", "gc_checks", "parallel", "recomputes", "gathers", "gathers_with_overlapping_misses_of_one_key"]:
         if not c.get(k):
             out.append("%s is zero" % k)
     return out
